@@ -168,6 +168,18 @@ func driverHist(c *Ctx) {
 				scribbleBytes(buf)
 			case kind == 0 || len(its) == 0:
 				t := g.tree(g.pick(2), g.pick(2) == 0)
+				if g.pick(6) == 0 {
+					// a wide list - 63, 64, 65 ... direct items - of constants with a few variables of its own
+					n := []int{31, 32, 33, 63, 64, 65, 127, 128, 129}[g.pick(9)]
+					t = &GItem{F: "L"}
+					for k := 0; k < n; k++ {
+						if k%29 == 7 {
+							t.Kids = append(t.Kids, &GItem{F: "", Var: g.newVar()})
+						} else {
+							t.Kids = append(t.Kids, &GItem{F: "U1", Vals: []interface{}{uint64(k % 256)}})
+						}
+					}
+				}
 				op = J{"k": "newitem"}
 				addItem(func() ast.ItemNode { return t.Build() })
 			case len(script) > 0:
@@ -273,6 +285,37 @@ func driverHist(c *Ctx) {
 				sys := make([]byte, g.pick(7))
 				g.r.Read(sys)
 				sid := []int{g.pick(65536), g.pick(65536), -1, -2, 65535, 65536, 0}[g.pick(7)]
+				if g.pick(2) == 0 {
+					// arguments close to what the message already holds: the same session id, and its system bytes with
+					// leading or trailing zeros dropped, cut short, or with a zero in front or behind
+					cur := objs[id].msg.SystemBytes()
+					if cs := objs[id].msg.SessionID(); cs >= 0 && g.pick(4) != 0 {
+						sid = cs
+					}
+					lead, trail := 0, len(cur)
+					for lead < len(cur) && cur[lead] == 0 {
+						lead++
+					}
+					for trail > 0 && cur[trail-1] == 0 {
+						trail--
+					}
+					switch g.pick(7) {
+					case 0:
+						sys = clone(cur[lead:])
+					case 1:
+						sys = clone(cur[:trail])
+					case 2:
+						sys = clone(cur[:g.pick(len(cur)+1)])
+					case 3:
+						sys = append([]byte{0}, cur...)
+					case 4:
+						sys = append(clone(cur), 0)
+					case 5:
+						sys = []byte{0, 0, 0, byte(1 + g.pick(255))}
+					default:
+						sys = clone(cur)
+					}
+				}
 				op = J{"k": "setsession", "id": id + 1, "sid": sid, "sys": bytesJ(sys)}
 				addMsg(func() *ast.DataMessage { return objs[id].msg.SetSessionIDAndSystemBytes(sid, sys) }, -1)
 				scribbleBytes(sys)
